@@ -18,6 +18,11 @@ C = dict(
         dict(name="sim", module="WriterReady", cfg="WriterReady_PlanSim.cfg", simulate={"quick": 200, "thorough": 8000},
              depth=40, cap={"quick": 400, "thorough": 60000}),
     ],
+    # every third history also runs under a whole-database name mapping (the downstream holds the objects under the mapped
+    # database, the writer's create / drop tables stay keyed by source names)
+    expand_plans=lambda plans, tier: [q for i, p in enumerate(plans) for q in
+                                      ([p] + ([dict(p, plan=str(p["plan"]) + "-map", params=dict(p.get("params") or {}, dbmap="x_"))]
+                                              if p.get("src") != "cases" and (i % 3 == 0 or p.get("src") == "directed") else []))],
     directed="plans/C08.jsonl",
     trace=("WriterReady_Trace", "WriterReady_Trace.cfg"),
     death="violation",
